@@ -194,6 +194,22 @@ def mt_probe(ck):
     return best
 
 
+def report_mt(ck, mt):
+    """The probe is timing dependent and not scheduler controlled: it is supporting evidence and
+    can never decide the check.  Shows -> KNOWN-FINDING line (the signature is recorded in
+    known_findings/C10.json); does not show, or the probe could not run -> nothing.  Should the
+    signature ever be missing from the known-findings file the observation is only logged."""
+    if not mt or mt.get("empty", 0) <= 0:
+        return "silent"
+    what = "on a multi-thread runtime %d of %d identical SELECTs over 3 rows returned no rows" % (mt["empty"], mt["n"])
+    if (ck.prop, SIG_MT) in ck.known:
+        ck.report(SIG_MT, what, replay={"cmd": "harness c10 mt 300", "result": mt})
+        return "known"
+    ck.log("supporting evidence (not a verdict): " + what)
+    ck.notes.append("multi-thread probe: " + what)
+    return "logged"
+
+
 def run(ck):
     n = 220 if ck.quick() else 1500
     if not S.lean_and_build(ck, "RlModel.Thm.C10", THEOREMS, "drv_c10", "c10"):
@@ -267,9 +283,7 @@ def run(ck):
             nontrivial.add(t.driver_line().split("(steps", 1)[1][:4000])
     # supporting evidence: result delivery on a multi-thread runtime
     mt = mt_probe(ck)
-    if mt and mt["empty"] > 0:
-        ck.report(SIG_MT, "on a multi-thread runtime %d of %d identical SELECTs over 3 rows returned no rows" % (mt["empty"], mt["n"]),
-                  replay={"cmd": "harness c10 mt 200", "result": mt})
+    report_mt(ck, mt)
     ck.coverage.update({
         "evaluations": len(traces),
         "distinct_nontrivial": len(nontrivial),
